@@ -191,3 +191,19 @@ CHECKS["C07"] = {
           "modelled for ASCII content; the enhanced op uses the style rows of the variant table (plural / as-typed rows only end-to-end); "
           "the rendering chosen for the replacement inside the term's span is C06's concern (recorded as local_other_rendering).",
 }
+CHECKS["C10"] = {
+  "text": "Theorems for every command list and every clock schedule over a Lean model of history.rs/undo.rs/id_resolver.rs and the "
+          "head and tail of apply_plan (any tree side): entries are only ever appended (prefix property), exactly one entry with "
+          "an id not yet present per successful command, a rejected command changes nothing, a rename/redo whose id is already "
+          "present changes nothing, a redo succeeds at most once per id, the implementation's eligibility scans imply the "
+          "abstract applied/undone status; refinement to an abstract history under the explicit guard G10 (no partial apply, "
+          "undo/redo in place), two kernel-evaluated witnesses outside it, and the four repaired defects as theorems about the "
+          "code before the repairs. The model is compared step by step (exit class, history shape, whole tree) with the real "
+          "CLI on exhaustively enumerated and random command sequences run under an LD_PRELOAD fake clock, and an independent "
+          "runner-side abstract history judges every step.",
+  "design_ref": "DESIGN.md section 4, C10",
+  "technique": "Lean 4 proof (induction over command lists, invariant-based refinement) + CLI sequence correspondence under a fake clock + abstract-history oracle",
+  "note": TB + "tree side of the refinement theorem is a parameter with the undo round-trip law as hypothesis (proved for the flat-file "
+          "instance used by the driver); plan-id hash modelled as injective on (concatenated terms, second); path renames, --commit, "
+          "unparsable history.json (C11) and the lock (C12) not modelled; workspaces git-ignore .renamify (C09's finding kept out).",
+}
